@@ -10,13 +10,23 @@ NOT_SHOWN = {
          "Circle, Cylinder, CylinderSegment: need Bulirsch cel/el3 (Legendre elliptic integral) theory, absent from Mathlib v4.33",
          "all of the above are checked against numerical quadrature of the defining integral by the oracle (rel. 2e-6 outside, 2e-4 inside)"],
  "C13": ["Cuboid = mesh = tetrahedra; Cylinder = sum of segments; partition additivity of magnets; Polyline -> Circle: equalities between different closed forms, oracle only"],
- "C14": ["NO integral-form statement (flux through a closed surface, circulation around a loop) is proved for any class, not even over boxes: proved are only the pointwise local forms "
-         "div B = 0 / curl H = 0 for Dipole (r != 0) and Sphere (off its surface), div H = 0 for one straight segment of the UNMASKED kernel, and the Sphere interface conditions "
-         "(sphere_interface_model). The passage local => integral (Gauss / Stokes; C^1 regularity — the theorems give existence of the partial derivatives at a point) is assumed",
-         "Ampere's law with non-zero threading current (Circle, closed Polyline), curl H = 0 for closed polylines off the wire, and every statement for Cuboid, Cylinder, CylinderSegment, "
-         "Tetrahedron, TriangularMesh, Circle and collections: flux / circulation quadrature oracle only",
-         "segment_B_div_free is about q -> mu0 * segmentH q, not about the masked wrapper (not differentiable across the 1e-15 on-line mask)",
-         "Mathlib has the divergence theorem for boxes only and no Stokes theorem for general loops"],
+ "C14": ["integral forms are theorems ONLY for axis-aligned closed boxes (flux of B, six face integrals) and axis-aligned rectangles in coordinate planes (circulation of H, four line "
+         "integrals) that lie within a region where the field is smooth: Dipole — box / filled rectangle not containing the origin (dipole_box_flux_zero, dipole_rect_circulation_zero); "
+         "Cuboid closed form and the BHJM_magnet_cuboid row — box within one of the 27 cells cut out by the six face planes, resp. clear of the wrapper's 1e-15 shells "
+         "(cuboid_box_flux_zero, cuboid_rect_circulation_zero, cuboid_wrapper_box_laws); Sphere — box strictly inside or strictly outside the ball (sphere_box_laws_inside/_outside). "
+         "Generic: box_flux_zero_of_div_free / rect_circulation_zero_of_curl_free (1-D fundamental theorem + Fubini; partial derivatives continuous on the closed box)",
+         "NOT shown by theorem: surfaces that are not axis-aligned boxes and loops that are not axis-aligned rectangles (rotated boxes, spheres, circles, polygons: Mathlib has the divergence "
+         "theorem for boxes only and no Stokes theorem); boxes that CUT a CHARGED face of the Cuboid (J.n != 0) — the splitting argument is a theorem (BoxLaws.box_flux_zero_of_split_x: piecewise "
+         "smooth field, normal component continuous across the cut) and is instantiated only for a face without charge (cuboid_box_flux_crossing_tangential: pol.x = 0, B jumps tangentially by J); "
+         "for a charged face the one-sided smooth continuations of the closed form and hence the continuity of B_n are an explicit HYPOTHESIS (cuboid_box_flux_crossing_partial); no cutting "
+         "statement for the wrapper row (its 1e-15 shells have positive measure), for circulation across a Cuboid face, or for the Sphere surface (pointwise interface conditions only: "
+         "sphere_interface_model); boxes enclosing the Dipole position",
+         "Ampere's law with non-zero threading current (Circle, closed Polyline: linking-number form), curl H = 0 for closed polylines off the wire, and every integral statement for Cylinder, "
+         "CylinderSegment, Tetrahedron, TriangularMesh, Circle, Polyline and collections: flux / circulation quadrature oracle only",
+         "the straight segment has only the pointwise div H = 0 of the UNMASKED kernel (segment_B_div_free is about q -> mu0 * segmentH q, not about the masked wrapper, which is not differentiable "
+         "across the 1e-15 on-line mask); no box-flux theorem for it (continuity of its partial derivatives on a box not proved)",
+         "the integral theorems are about the real-number model (exact Lebesgue integrals of the model functions at carrier R); the oracle's Gauss-Legendre sums of float64 values are compared with 0 "
+         "to a tolerance, not derived from the theorems"],
 }["C14"]
 
 
